@@ -145,11 +145,13 @@ type env struct {
 	w       *gitx.World
 	scratch string
 	shapes  []shape
+	patShapes []shape   // scenario "patterns"
+	patSels   []pathSel // scenario "patterns"
 	caseSeq int64
 	mu      sync.Mutex
 	bstate  map[string]*baseState
 	psel    map[string]map[string]bool // pathsel name + "\x00" + profile -> path -> selected
-	found   map[string]vx.FoundViolation // fingerprint -> violation of the lexicographically smallest case showing it
+	found   map[string]map[string]vx.FoundViolation // scenario -> fingerprint -> violation of the lexicographically smallest case showing it
 	nviol   int64
 }
 
@@ -165,15 +167,24 @@ func lessChoices(a, b []vx.Point) bool {
 // runExplore is runCase for the explorer: violations are collected here, one representative per fingerprint
 // (the smallest case in enumeration order, so the report does not depend on scheduling), because vx.Stats
 // keeps only the first 200 violations of a run and one defect class shows up in hundreds of cases.
-func (ev *env) runExplore(x *vx.X) vx.Result {
-	r := ev.runCase(x)
+func (ev *env) runExplore(x *vx.X) vx.Result { return ev.collect("migrate", ev.runCase, x) }
+
+func (ev *env) runExplorePat(x *vx.X) vx.Result { return ev.collect("patterns", ev.runPatCase, x) }
+
+func (ev *env) collect(scenario string, run func(*vx.X) vx.Result, x *vx.X) vx.Result {
+	r := run(x)
 	if len(r.Violations) > 0 {
 		pts := append([]vx.Point(nil), x.Points...)
 		ev.mu.Lock()
+		found := ev.found[scenario]
+		if found == nil {
+			found = map[string]vx.FoundViolation{}
+			ev.found[scenario] = found
+		}
 		for _, v := range r.Violations {
 			ev.nviol++
-			if old, ok := ev.found[v.Fingerprint]; !ok || lessChoices(pts, old.Prefix) {
-				ev.found[v.Fingerprint] = vx.FoundViolation{Violation: v, Prefix: pts}
+			if old, ok := found[v.Fingerprint]; !ok || lessChoices(pts, old.Prefix) {
+				found[v.Fingerprint] = vx.FoundViolation{Violation: v, Prefix: pts}
 			}
 		}
 		ev.mu.Unlock()
@@ -517,18 +528,25 @@ func (j *judge) compareTrees(op, kind string, before, after *snap, o, n string, 
 		if special != "" {
 			sp = ":" + special // a specific defect class: the file kind is irrelevant for it
 		}
+		fpOf := func(clause string) string {
+			if strings.HasPrefix(special, "=") {
+				// a defect class of the selection itself, the same whatever the operation, option position and direction of the deviation
+				return "C12:selection:" + special[1:]
+			}
+			return "C12:" + clause + ":" + tag + sp
+		}
 		if want {
 			j.count("clause.selected.must-convert")
 			changed = append(changed, p)
 			if (op == "import") != ln.isPtr {
-				j.bad("C12:selected-not-converted:"+tag+sp, fmt.Sprintf("commit %s -> %s: %q is selected by the %s but kept its representation (pointer=%v)", short(o), short(n), p, op, ln.isPtr), nil)
+				j.bad(fpOf("selected-not-converted"), fmt.Sprintf("commit %s -> %s: %q is selected by the %s but kept its representation (pointer=%v)", short(o), short(n), p, op, ln.isPtr), nil)
 			} else {
 				st.converted++
 			}
 		} else {
 			j.count("clause.unselected.must-keep")
 			if eo.id != en.id {
-				j.bad("C12:unselected-changed:"+tag+sp, fmt.Sprintf("commit %s -> %s: %q is not selected (selected=%v pointer=%v empty=%v) but its blob changed %s -> %s (pointer now=%v)", short(o), short(n), p, selected, lo.isPtr, len(lo.data) == 0, short(eo.id), short(en.id), ln.isPtr), nil)
+				j.bad(fpOf("unselected-changed"), fmt.Sprintf("commit %s -> %s: %q is not selected (selected=%v pointer=%v empty=%v) but its blob changed %s -> %s (pointer now=%v)", short(o), short(n), p, selected, lo.isPtr, len(lo.data) == 0, short(eo.id), short(en.id), ln.isPtr), nil)
 			} else {
 				st.kept++
 			}
@@ -628,16 +646,27 @@ type stepOut struct {
 }
 
 func (ev *env) selector(sh *shape, ps pathSel, op string, before *snap, rng map[string]bool, tracked func(commit string) map[string]bool) selFn {
-	var pm map[string]bool
+	var pm, pmNoSlash map[string]bool
 	if len(ps.include)+len(ps.exclude) > 0 {
 		pm = ev.pathSelected(ps, sh)
+		if hasTrailingSlash(ps) {
+			pmNoSlash = ev.pathSelected(stripTrailingSlash(ps), sh)
+		}
 	}
 	return func(commit, p string, e entry, lg logicalBlob) (bool, string) {
 		if !rng[commit] {
 			return false, ""
 		}
-		if pm != nil && !pm[p] {
-			return false, ""
+		if pm != nil {
+			// a pattern element with a trailing slash matches directories only; a path whose verdict would be different
+			// without that slash is a regular file named like the pattern: deviations there are one specific class
+			special := ""
+			if pmNoSlash != nil && pmNoSlash[p] != pm[p] {
+				special = "=trailing-slash-pattern-on-regular-file"
+			}
+			if !pm[p] || special != "" {
+				return pm[p], special
+			}
 		}
 		if ps.above > 0 {
 			size := int64(len(before.blobs[e.id]))
@@ -837,6 +866,15 @@ func (ev *env) doCase(sh *shape, op string, cd caseDef, id string, sample map[st
 				so.rewritten++
 			}
 			so.changed[o] = j.compareTrees(stepOp, cd.ps.kind, before, after, o, n, sel, st)
+			if sh.attrClause {
+				var fo map[string]bool
+				if tracked != nil {
+					fo = tracked(o)
+				} else {
+					fo = lfsTracked(ev.w, ev.scratch, before, o)
+				}
+				j.attrClause(stepOp, cd.ps.kind, before, after, o, n, fo, lfsTracked(ev.w, ev.scratch, after, n))
+			}
 		}
 		for o := range rng {
 			if _, ok := so.pairs.fwd[o]; !ok {
@@ -848,6 +886,9 @@ func (ev *env) doCase(sh *shape, op string, cd caseDef, id string, sample map[st
 	}
 
 	bucket := func(n int) string {
+		if sh.attrClause {
+			return strconv.Itoa(n) // scenario "patterns": the size of the converted set is the outcome class
+		}
 		switch {
 		case n <= 2:
 			return strconv.Itoa(n)
@@ -953,7 +994,8 @@ func TestVerifC12(t *testing.T) {
 			c.Tier = rf.Tier // Finish rewrites the replay file of a confirmed violation: keep its tier
 		}
 	}
-	ev := &env{w: w, scratch: w.Root, shapes: makeShapes(tier == "thorough"), bstate: map[string]*baseState{}, psel: map[string]map[string]bool{}, found: map[string]vx.FoundViolation{}}
+	ev := &env{w: w, scratch: w.Root, shapes: makeShapes(tier == "thorough"), patShapes: makePatShapes(tier == "thorough"), patSels: patSels(tier == "thorough"),
+		bstate: map[string]*baseState{}, psel: map[string]map[string]bool{}, found: map[string]map[string]vx.FoundViolation{}}
 	os.MkdirAll(filepath.Join(ev.scratch, "cases"), 0755)
 	os.MkdirAll(filepath.Join(ev.scratch, "bases"), 0755)
 
@@ -979,16 +1021,34 @@ func TestVerifC12(t *testing.T) {
 	c.Bounds["path_selections"] = psNames
 	c.Bounds["planned_cases"] = planned
 	c.Bounds["planned_cases_per_operation"] = perOp
+	plannedPat := 0
+	var patShapeNames, patSelNames []string
+	for i := range ev.patShapes {
+		sh := &ev.patShapes[i]
+		patShapeNames = append(patShapeNames, sh.name+" x {"+strings.Join(patOps(sh), ", ")+"}")
+		plannedPat += len(patOps(sh)) * len(patCasesFor(sh, ev.patSels))
+	}
+	for _, p := range ev.patSels {
+		patSelNames = append(patSelNames, strings.Join(p.args(), " "))
+	}
+	c.Bounds["patterns.grammar"] = patGrammar
+	c.Bounds["patterns.shapes"] = patShapeNames
+	c.Bounds["patterns.selections"] = patSelNames
+	c.Bounds["patterns.two_pattern_position"] = map[string]interface{}{"quick": "--include in " + strings.Join(patQuickInc, " ") + " x --exclude in " + strings.Join(patQuickExc, " "), "thorough": "every ordered pair of distinct grammar elements (include *.bin is the second position)"}
+	c.Bounds["patterns.planned_cases"] = plannedPat
 	c.Rule = "one case = (shape = topology x file profile, operation in {import, export, import-then-export}, path selection, ref selection of the topology); the explored set is the COMPLETE product " +
 		"shapes x operations x path selections x ref selections (export and import-then-export take the selections that have an --include; --no-rewrite is crossed with the default ref selection only, as the manual says the ref options are ignored). " +
 		"Topologies (<=5 commits): single, linear 2/3/4, fork, merge (with and without the side branch ref), asymmetric merge (sides of length 1 and 2), the three merge graphs additionally with all commits in the same second and with the side line dated before the root (clock skew), two roots merged, octopus of three roots, tag on a commit no branch reaches, revert/reapply, first commit pushed to a real remote, bare repository, and one history with commit messages as other tools write them (no trailing LF, CRLF, encoding header, empty); refs: branches, lightweight + annotated tags, tag of a tag, refs/pull/*, refs/remotes/*. " +
 		"File profiles (four trees each, differing by add/modify/delete/rename/mode flip/type change/attribute change): plain (sizes 200..5000 incl. 1000/1023/1024, two paths with identical content, blanks and non-ASCII in a path, identical subtrees under two parents), modes (executable, symlinks, gitlink, empty file, file<->directory, symlink<->file with the same blob), lfs (root and nested .gitattributes that change between commits, files already stored as pointers, raw files at tracked paths, pointer at an untracked path, empty tracked file, one object under two paths), tracked (everything already in LFS), mix (all of them in one tree). " +
+		"Scenario 'patterns' (selection dimension): the complete product  pattern selections x {import, import-then-export on a history of plain blobs without .gitattributes; export on the same history with every file in LFS under `* filter=lfs`} x ref selections, over histories with files at the root, in dir/, dir/sub/, other/, other/sub/, dirx/ and a name (`sub`) that is a regular file at the root in some commits and a directory in others; selections = every grammar element P as --include=P, as --include=*.bin --exclude=P, and pairs --include=P --exclude=Q (quick: a stated 3x6 sub-product; thorough: every ordered pair); the grammar is in bounds['patterns.grammar']. " +
 		"distinct_nontrivial = distinct cases in which at least one commit was actually rewritten (for import-then-export: in both steps)"
 	c.Assumptions = []string{
 		"old and new histories are read with git plumbing only (for-each-ref, symbolic-ref, rev-list, cat-file --batch); trees are flattened from the raw tree objects; a blob counts as a pointer iff it is the canonical encoding of docs/spec.md (no extensions) and is then resolved through .git/lfs/objects (object must exist, hash to its name and have the stated size)",
 		"commit correspondence is derived structurally: old and new histories are walked in lockstep from every ref (parents by position); the relation must be one-to-one; commits outside the selected range must keep their id",
 		"selected commits: reachable from the included refs and not from the excluded ones (git rev-list); default = checked-out branch minus refs of configured remotes (non-bare only); --everything = all refs except refs/stash, refs/notes, refs/bisect, refs/replace; local refs into the range must move to the image, refs/remotes/* must not move (manual)",
 		"selected paths: regular files (100644/100755) other than */.gitattributes whose path matches --include and not --exclude, evaluated by `git check-attr` on a scratch .gitattributes (manual: 'functionally equivalent to the pattern matching format of .gitattributes'); --above=N: blob size > N ('above the given size'; size == N is reported under its own fingerprint); --fixup: filter attribute of the path is 'lfs' according to the .gitattributes files of that same commit (git read-tree + check-attr --cached), 'on a per-commit basis'; no option = every file",
+		"scenario 'patterns', clause (3b): in a history whose files all start in the from-state of the operation and agree with git's reading of the original .gitattributes (import: plain blob and filter is not lfs; export: pointer and filter=lfs), after the migration a file is a pointer iff `git check-attr --cached filter` on the rewritten commit (i.e. git's own reading of the .gitattributes that migrate wrote there; manual: the patterns are added to .gitattributes 'as given by those flags', 'as if git lfs track had been run') says lfs; the lines migrate appends come after the pre-existing ones and the pre-existing line `* filter=lfs ...` coincides with no pattern of the grammar, so the last-match rule of gitattributes(5) makes git's reading exactly the meaning of the patterns",
+		"a pattern element with a trailing slash matches directories only (gitignore(5)/gitattributes(5)), hence no file; a deviation on a path whose verdict would differ without that slash is reported under the class trailing-slash-pattern-on-regular-file",
 		"import must turn a selected non-empty non-pointer file into a pointer; export must turn a selected pointer into a non-pointer; every other path (unselected, symlink, gitlink, empty, already in the target representation) must keep its blob id; .gitattributes files at any depth may change freely and are excluded from every comparison",
 		"symlinks and gitlinks are compared by object id (pointer resolution does not apply to them)",
 		"annotated tags (tag name, tagger, message) are compared as part of 'the same ... messages'; a difference is reported under C12:tag-changed:*",
@@ -998,12 +1058,17 @@ func TestVerifC12(t *testing.T) {
 		"git 2.39.5; subprocess timeout 60 s is a tool guard (=> inconclusive)",
 	}
 	exec := func(p []vx.Point) vx.Result { return vx.SafeRun(ev.runCase, p) }
+	execPat := func(p []vx.Point) vx.Result { return vx.SafeRun(ev.runPatCase, p) }
 	if rf != nil {
-		r := exec(rf.Prefix)
+		ex, scn := exec, "migrate"
+		if rf.Scenario == "patterns" {
+			ex, scn = execPat, "patterns"
+		}
+		r := ex(rf.Prefix)
 		st := vx.NewStats()
 		st.Absorb(rf.Prefix, &r, 0)
 		fmt.Printf("replayed case: %v\n  outcome: %s\n", r.Sample, r.Outcome)
-		code := c.Finish([]vx.Part{{Scenario: "migrate", Stats: st, Exec: exec}}, nil)
+		code := c.Finish([]vx.Part{{Scenario: scn, Stats: st, Exec: ex}}, nil)
 		closeWorld(w)
 		os.Exit(code)
 	}
@@ -1011,24 +1076,48 @@ func TestVerifC12(t *testing.T) {
 	if n, err := strconv.Atoi(os.Getenv("VERIF_C12_WORKERS")); err == nil && n > 0 {
 		workers = n
 	}
-	e := &vx.Explorer{Name: "C12", Workers: workers, BoundEnv: 0, BoundSch: 0, BoundSum: -1, Run: ev.runExplore, Deadline: c.DeadlineAfter(160*time.Second, 23*time.Minute)}
-	st := e.Explore()
+	only := os.Getenv("VERIF_ONLY") // iteration aid: run one scenario only ("migrate" | "patterns")
+	deadline := c.DeadlineAfter(185*time.Second, 23*time.Minute)
+	// the small scenario first: under load the deadline must cut the tail of the big one, not all of this one
+	stPat, st := vx.NewStats(), vx.NewStats()
+	if only == "" || only == "patterns" {
+		stPat = (&vx.Explorer{Name: "C12-patterns", Workers: workers, BoundEnv: 0, BoundSch: 0, BoundSum: -1, Run: ev.runExplorePat, Deadline: deadline}).Explore()
+	}
+	if only == "" || only == "migrate" {
+		st = (&vx.Explorer{Name: "C12", Workers: workers, BoundEnv: 0, BoundSch: 0, BoundSum: -1, Run: ev.runExplore, Deadline: deadline}).Explore()
+	}
 	ev.mu.Lock()
 	nb := len(ev.bstate)
 	var fps []string
-	for fp := range ev.found {
-		fps = append(fps, fp)
+	seenFp := map[string]bool{}
+	for scn, target := range map[string]*vx.Stats{"migrate": st, "patterns": stPat} {
+		var l []string
+		for fp := range ev.found[scn] {
+			l = append(l, fp)
+			if !seenFp[fp] {
+				seenFp[fp] = true
+				fps = append(fps, fp)
+			}
+		}
+		sort.Strings(l)
+		for _, fp := range l {
+			target.Violations = append(target.Violations, ev.found[scn][fp])
+		}
 	}
 	sort.Strings(fps)
-	for _, fp := range fps {
-		st.Violations = append(st.Violations, ev.found[fp])
-	}
 	ev.mu.Unlock()
-	extra := map[string]interface{}{"subprocess_start_retries": atomic.LoadInt64(&execRetries), "base_repositories_built": nb, "planned_cases": planned, "violating_oracle_evaluations": ev.nviol, "distinct_violation_fingerprints": fps}
+	extra := map[string]interface{}{"subprocess_start_retries": atomic.LoadInt64(&execRetries), "base_repositories_built": nb, "planned_cases": planned + plannedPat, "violating_oracle_evaluations": ev.nviol, "distinct_violation_fingerprints": fps}
 	if fps == nil {
 		extra["distinct_violation_fingerprints"] = []string{}
 	}
-	code := c.Finish([]vx.Part{{Scenario: "migrate", Stats: st, Exec: exec}}, extra)
+	var parts []vx.Part
+	if only == "" || only == "migrate" {
+		parts = append(parts, vx.Part{Scenario: "migrate", Stats: st, Exec: exec})
+	}
+	if only == "" || only == "patterns" {
+		parts = append(parts, vx.Part{Scenario: "patterns", Stats: stPat, Exec: execPat})
+	}
+	code := c.Finish(parts, extra)
 	closeWorld(w)
 	os.Exit(code)
 }
